@@ -17,6 +17,51 @@ func init() {
 	gens["Src_response.v"] = genGoLiteResponse
 	gens["Src_context.v"] = genGoLiteContext
 	gens["Src_echo.v"] = genGoLiteEcho
+	gens["Src_mw_handlers.v"] = genGoLiteMiddleware
+}
+
+// innerHandler finds the innermost function literal of shape func(c echo.Context) error inside fd.
+func innerHandler(fd *ast.FuncDecl) *ast.FuncLit {
+	var found *ast.FuncLit
+	ast.Inspect(fd.Body, func(n ast.Node) bool {
+		if fl, ok := n.(*ast.FuncLit); ok && len(fl.Type.Params.List) == 1 && lit(fl.Type.Params.List[0].Type) == "echo.Context" {
+			found = fl
+		}
+		return true
+	})
+	return found
+}
+
+func goliteClosure(repo, file, fn, name string, cfg goliteCfg) (string, error) {
+	f, err := parseFile(repo, file)
+	if err != nil {
+		return "", err
+	}
+	fd := findFunc(f, "", fn)
+	if fd == nil {
+		return "", fmt.Errorf("%s not found", fn)
+	}
+	fl := innerHandler(fd)
+	if fl == nil {
+		return "", fmt.Errorf("%s: no handler closure found", fn)
+	}
+	return goliteFunc(&ast.FuncDecl{Name: fd.Name, Type: fl.Type, Body: fl.Body}, name, cfg)
+}
+
+func genGoLiteMiddleware(repo string) (string, error) {
+	a, err := goliteClosure(repo, "middleware/rate_limiter.go", "RateLimiterWithConfig", "rate_limiter_handler", goliteCfg{
+		ignore: map[string]bool{}, cells: map[string]bool{}, tail: map[string]bool{"next": true},
+		extern: map[string]bool{"config.Skipper": true, "config.IdentifierExtractor": true, "config.Store.Allow": true}})
+	if err != nil {
+		return "", err
+	}
+	b, err := goliteClosure(repo, "middleware/body_limit.go", "BodyLimitWithConfig", "body_limit_handler", goliteCfg{
+		ignore: map[string]bool{}, cells: map[string]bool{}, tail: map[string]bool{"next": true},
+		extern: map[string]bool{"config.Skipper": true}})
+	if err != nil {
+		return "", err
+	}
+	return goliteHeader + "(* the request handlers (innermost closures) of RateLimiterWithConfig (middleware/rate_limiter.go) and BodyLimitWithConfig\n   (middleware/body_limit.go).  Skipper, identifier extractor and the store are external (answers from the input stream);\n   calling next is an event. *)\n" + a + b, nil
 }
 
 func genGoLiteEcho(repo string) (string, error) {
@@ -42,6 +87,9 @@ type goliteCfg struct {
 	consts map[string]string
 	recv   string
 	locals map[string]bool
+	tail   map[string]bool // return f(...): f is called (an event) and its result returned
+	pre    []string        // external calls met inside an expression: hoisted in front of the statement
+	ntmp   int
 }
 
 func (g *goliteCfg) str(s string) string { return "\"" + strings.ReplaceAll(s, "\"", "\"\"") + "\"" }
@@ -91,6 +139,14 @@ func (g *goliteCfg) expr(e ast.Expr) (string, error) {
 		}
 		if g.cells[n] {
 			return "EField " + g.str(n), nil
+		}
+		if g.extern[fn] {
+			g.ntmp++
+			t := fmt.Sprintf("tmp%d", g.ntmp)
+			g.locals[t] = true
+			args, _ := g.exprs(v.Args)
+			g.pre = append(g.pre, fmt.Sprintf("SCall [%s] %s %s", g.str(t), g.str(fn), args))
+			return "EVar " + g.str(t), nil
 		}
 		return "", fmt.Errorf("call %s in an expression is not understood", n)
 	case *ast.UnaryExpr:
@@ -155,10 +211,7 @@ func (g *goliteCfg) assignTo(lhs ast.Expr, rhs string) (string, error) {
 		g.locals[v.Name] = true
 		return fmt.Sprintf("SSet %s (%s)", g.str(v.Name), rhs), nil
 	case *ast.SelectorExpr:
-		n := lit(v)
-		if strings.HasPrefix(n, g.recv+".") {
-			return fmt.Sprintf("SFSet %s (%s)", g.str(n), rhs), nil
-		}
+		return fmt.Sprintf("SFSet %s (%s)", g.str(lit(v)), rhs), nil
 	case *ast.StarExpr:
 		return g.assignTo(v.X, rhs)
 	}
@@ -185,7 +238,7 @@ func (g *goliteCfg) stmt(s ast.Stmt) ([]string, error) {
 		if g.ignore[lit(v.Call.Fun)] {
 			return nil, nil
 		}
-		return nil, fmt.Errorf("defer %s is not understood", lit(v.Call))
+		return []string{fmt.Sprintf("SEmit %s []", g.str("defer "+lit(v.Call)))}, nil
 	case *ast.ExprStmt:
 		ce, ok := v.X.(*ast.CallExpr)
 		if !ok {
@@ -276,7 +329,11 @@ func (g *goliteCfg) stmt(s ast.Stmt) ([]string, error) {
 		for i := range v.Lhs {
 			r, err := g.expr(v.Rhs[i])
 			if err != nil {
-				if _, isCall := v.Rhs[i].(*ast.CallExpr); !isCall {
+				_, isCall := v.Rhs[i].(*ast.CallExpr)
+				if ta, isTA := v.Rhs[i].(*ast.TypeAssertExpr); isTA {
+					_, isCall = ta.X.(*ast.CallExpr)
+				}
+				if !isCall {
 					return nil, err
 				}
 				r = "ESym " + g.str(lit(v.Rhs[i])) // a constructed object (make(...), NewX(...)): named by its Go spelling
@@ -305,6 +362,12 @@ func (g *goliteCfg) stmt(s ast.Stmt) ([]string, error) {
 		return out, nil
 	case *ast.ReturnStmt:
 		var es []string
+		if len(v.Results) == 1 {
+			if ce, ok := v.Results[0].(*ast.CallExpr); ok && g.tail[lit(ce.Fun)] {
+				args, _ := g.exprs(ce.Args)
+				return []string{fmt.Sprintf("SEmit %s %s", g.str(lit(ce.Fun)), args), fmt.Sprintf("SRet [ESym %s]", g.str("result of "+lit(ce.Fun)))}, nil
+			}
+		}
 		for _, r := range v.Results {
 			x, err := g.expr(r)
 			if err != nil {
@@ -330,10 +393,13 @@ func (g *goliteCfg) stmt(s ast.Stmt) ([]string, error) {
 			}
 			pre = p
 		}
+		g.pre = nil
 		c, err := g.expr(v.Cond)
 		if err != nil {
 			return nil, err
 		}
+		pre = append(pre, g.pre...)
+		g.pre = nil
 		t, err := g.block(v.Body.List)
 		if err != nil {
 			return nil, err
